@@ -151,7 +151,75 @@ def compare_saved(f, out1, T, any_read):
     return problems
 
 
-def impl_case(f, seq, T, tmp, tag='c'):
+# ----------------------------------------------------------------------------- argument forms
+# Forms the code accepts TODAY (established on the unchanged tree): the file name as str / pathlib.Path / any
+# os.PathLike for BSP(...) and save(...); save() / save(None) / save(same path) in place, save(other path),
+# positional or filename=; views read with getattr(...) or attribute syntax; a view re-assigned to itself
+# (bsp.x = bsp.x) after it was read; the pakfile ZipFile used for reading (namelist / read).
+# Rejected today, outside the domain: a bytes path (TypeError from open()); `with bsp.pakfile as z:` followed by
+# save() (ZipFile.close() drops its fp -> ValueError 'Zipfile has no buffer?', nothing is written).
+# Every accepted form must behave exactly like the canonical one: the model ignores the form.
+
+class _PathLike:
+    def __init__(self, p):
+        self.p = p
+
+    def __fspath__(self):
+        return self.p
+
+
+CANONICAL_FORMS = {'open': 'str', 'read': 'getattr', 'selfassign': False, 'save': 'other-str', 'pakuse': False}
+
+
+def path_form(kind, p):
+    return {'str': lambda: p, 'Path': lambda: pathlib.Path(p), 'PathLike': lambda: _PathLike(p)}[kind]()
+
+
+def gen_forms(rng):
+    if rng.random() < 0.4:
+        return dict(CANONICAL_FORMS)
+    return {'open': rng.choice(['str', 'Path', 'PathLike']), 'read': rng.choice(['getattr', 'attr']),
+            'selfassign': rng.random() < 0.3, 'pakuse': rng.random() < 0.5,
+            'save': rng.choice(['other-str', 'other-Path', 'other-PathLike', 'other-kw', 'inplace-noarg', 'inplace-None',
+                                'inplace-same-str', 'inplace-same-Path'])}
+
+
+def read_view(b, name, forms):
+    if forms['read'] == 'attr':
+        val = eval('b.' + name, {'b': b})
+    else:
+        val = getattr(b, name)
+    if forms['pakuse'] and name == 'pakfile':
+        for n in val.namelist():
+            val.read(n)
+    if forms['selfassign']:
+        setattr(b, name, val)          # bsp.x = bsp.x must change nothing
+    return val
+
+
+def do_save(b, forms, src, out):
+    """save in the given form; returns the path the file was written to."""
+    k = forms['save']
+    if k == 'other-str':
+        b.save(out)
+    elif k == 'other-Path':
+        b.save(pathlib.Path(out))
+    elif k == 'other-PathLike':
+        b.save(_PathLike(out))
+    elif k == 'other-kw':
+        b.save(filename=out)
+    elif k == 'inplace-noarg':
+        b.save(); return src
+    elif k == 'inplace-None':
+        b.save(None); return src
+    elif k == 'inplace-same-str':
+        b.save(src); return src
+    elif k == 'inplace-same-Path':
+        b.save(pathlib.Path(src)); return src
+    return out
+
+
+def impl_case(f, seq, T, tmp, tag='c', forms=None):
     """Runs (open; read the views of `seq`; save; re-read; save again) on the implementation.
     Returns (steps, problems): steps = one observation per read plus one after save;
     problems = [(key, what)] for every way the PROPERTY fails on this case."""
@@ -159,17 +227,22 @@ def impl_case(f, seq, T, tmp, tag='c'):
     names, gids = T['names'], T['game_ids']
     problems = []
     steps = []
+    forms = forms or CANONICAL_FORMS
     out1 = os.path.join(tmp, f'{tag}_1.bsp')
     out2 = os.path.join(tmp, f'{tag}_2.bsp')
     hdr0, raw0, graw0, dump0 = f.base
+    src = f.path
+    if forms['save'].startswith('inplace'):
+        src = os.path.join(tmp, f'{tag}_src.bsp')       # saving in place: work on a copy of the input
+        shutil.copyfile(f.path, src)
     try:
         with U.quiet():
-            b = B.BSP(f.path)
+            b = B.BSP(path_form(forms['open'], src))
             orig = U.raw_snapshot(b, gids)
             for v in seq:
                 raised = None
                 try:
-                    getattr(b, names[v])
+                    read_view(b, names[v], forms)
                 except Exception as e:
                     if names[v] not in f.fail_views:
                         raise
@@ -177,7 +250,7 @@ def impl_case(f, seq, T, tmp, tag='c'):
                 empty, parsed = U.observe(b, gids)
                 steps.append({'empty': empty, 'parsed': parsed, 'raw': U.raw_snapshot(b, gids), 'stripped': ents_stripped(b, f),
                               'raised': raised})
-            b.save(out1)
+            out1 = do_save(b, forms, src, out1)
             empty, parsed = U.observe(b, gids)
             steps.append({'empty': empty, 'parsed': parsed, 'raw': U.raw_snapshot(b, gids), 'stripped': ents_stripped(b, f),
                           'raised': None})
@@ -409,49 +482,72 @@ def layout_tie(ctx, drv, files, tmp):
 # ----------------------------------------------------------------------------- sessions: several BSP objects alive at once
 
 def gen_session(rng, files, nviews):
-    """2-3 objects over DIFFERENT files; ops [obj, kind, arg]: 'open', 'read' (view id), 'save'. Every object is opened,
-    the opens are interleaved with the other objects' reads and saves, and every object is saved at least once after
-    another object was opened."""
+    """2-3 objects; ops [obj, kind, arg]: 'open' (arg = path form), 'read' (view id), 'save' (arg = None: to a scratch
+    file, 'own': in place onto the file the object was read from, ['slot', k]: onto the file ANOTHER object was / will
+    be read from).  Objects normally sit on different files; with probability 1/3 two of them share the SAME file
+    (one is saved while the other still holds lazily unparsed lumps).  Opens are interleaved with the other
+    objects' reads and saves."""
     k = rng.choice([2, 2, 3])
     fs = rng.sample(range(len(files)), k)
+    slots = list(range(k))
+    if rng.random() < 1 / 3:
+        slots[1] = 0
+        fs[1] = fs[0]
+    nslots = len(set(slots))
+
+    def target():
+        r = rng.random()
+        if r < 0.5:
+            return None
+        if r < 0.8:
+            return 'own'
+        return ['slot', rng.choice(sorted(set(slots)))]
     ops = []
     for o in range(k):
         body = [[o, 'read', rng.randrange(nviews)] for _ in range(rng.randrange(0, 4))]
-        body.append([o, 'save', None])
+        body.append([o, 'save', target()])
         if rng.random() < 0.5:
-            body += [[o, 'read', rng.randrange(nviews)] for _ in range(rng.randrange(1, 3))] + [[o, 'save', None]]
-        ops.append([[o, 'open', None]] + body)
-    # random interleaving that keeps each object's own order
+            body += [[o, 'read', rng.randrange(nviews)] for _ in range(rng.randrange(1, 3))] + [[o, 'save', target()]]
+        ops.append([[o, 'open', rng.choice(['str', 'Path', 'PathLike'])]] + body)
     merged = []
     idx = [0] * k
-    # force the shape "open 0, open 1 before 0's first save" often
     while any(idx[o] < len(ops[o]) for o in range(k)):
         live = [o for o in range(k) if idx[o] < len(ops[o])]
         w = [3.0 if ops[o][idx[o]][1] == 'open' else 1.0 for o in live]
         o = rng.choices(live, weights=w)[0]
         merged.append(ops[o][idx[o]]); idx[o] += 1
-    return {'files': [files[i].label for i in fs], 'ops': merged}
+    return {'files': [files[i].label for i in fs], 'slots': slots, 'ops': merged}
 
 
 def run_session(sess, fmap, T, tmp, tag='sess'):
-    """Runs a session on the implementation. Returns (records, problems): records = for every step and every live
-    object (obj, number of own read/save ops so far, observation); problems = oracle failures [(key, what)]."""
+    """Runs a session on the implementation. Returns (records, problems, labels): records = for every step and every
+    live object (step, obj, number of own read/save ops so far, observation, the object's own bytes at open);
+    problems = oracle failures [(key, what)]; labels[obj] = the file whose content the object was opened on."""
     B = U.impl()
     names, gids = T['names'], T['game_ids']
-    objs, origs, counts, anyread = {}, {}, {}, {}
+    slots = sess.get('slots') or list(range(len(sess['files'])))
+    # every slot is a private copy of a synthesised file; `content` = which file's content it holds now
+    spath, content = {}, {}
+    for o, sl in enumerate(slots):
+        if sl not in spath:
+            spath[sl] = os.path.join(tmp, f'{tag}_slot{sl}.bsp')
+            shutil.copyfile(fmap[sess['files'][o]].path, spath[sl])
+            content[sl] = sess['files'][o]
+    objs, origs, counts, anyread, labels = {}, {}, {}, {}, {}
     records, problems = [], []
     for step, (o, kind, arg) in enumerate(sess['ops']):
-        f = fmap[sess['files'][o]]
         try:
             with U.quiet():
                 if kind == 'open':
-                    objs[o] = B.BSP(f.path)
+                    labels[o] = content[slots[o]]
+                    objs[o] = B.BSP(path_form(arg or 'str', spath[slots[o]]))
                     origs[o] = U.raw_snapshot(objs[o], gids)
                     counts[o] = 0
                     anyread[o] = False
                 elif o not in objs:
                     continue          # (shrunk sessions) op on an object that is not open
                 elif kind == 'read':
+                    f = fmap[labels[o]]
                     if names[arg] in f.fail_views:
                         try:
                             getattr(objs[o], names[arg])
@@ -462,23 +558,44 @@ def run_session(sess, fmap, T, tmp, tag='sess'):
                         counts[o] += 1
                     anyread[o] = True
                 elif kind == 'save':
-                    out = os.path.join(tmp, f'{tag}_{o}.bsp')
-                    objs[o].save(out)
+                    f = fmap[labels[o]]
+                    if arg is None:
+                        out = os.path.join(tmp, f'{tag}_{o}.bsp')
+                        objs[o].save(out)
+                    elif arg == 'own':
+                        out = spath[slots[o]]
+                        objs[o].save()
+                        content[slots[o]] = labels[o]
+                    else:
+                        sl = arg[1] if arg[1] in spath else slots[o]
+                        out = spath[sl]
+                        objs[o].save(pathlib.Path(out))
+                        content[sl] = labels[o]
                     counts[o] += 1
                     for key, what in compare_saved(f, out, T, anyread[o]):
-                        problems.append((key, f'step {step} (save of object {o} = {f.label}): {what}'))
+                        problems.append((key, f'step {step} (save of object {o} = {f.label}, target {arg}): {what}'))
         except Exception as e:
-            problems.append((f'exception:{type(e).__name__}', f'step {step} {kind} on object {o} = {f.label}: {type(e).__name__}: {e}'))
+            problems.append((f'exception:{type(e).__name__}', f'step {step} {kind} on object {o}: {type(e).__name__}: {e}'))
             break
         for j, b in objs.items():
             empty, parsed = U.observe(b, gids)
             records.append((step, j, counts[j], {'empty': empty, 'parsed': parsed, 'raw': U.raw_snapshot(b, gids)}, origs[j]))
-    return records, problems
+    return records, problems, labels
 
 
 def session_model_ops(sess, o, T, f):
-    return [(arg if kind == 'read' else -1) for (oo, kind, arg) in sess['ops'] if oo == o and kind in ('read', 'save')
-            and not (kind == 'read' and T['names'][arg] in f.fail_views)]
+    """the object's own reads and saves after its (last) open; where it saves to does not matter to the model."""
+    ops, opened = [], False
+    for (oo, kind, arg) in sess['ops']:
+        if oo != o:
+            continue
+        if kind == 'open':
+            ops, opened = [], True
+        elif opened and kind == 'save':
+            ops.append(-1)
+        elif opened and kind == 'read' and T['names'][arg] not in f.fail_views:
+            ops.append(arg)
+    return ops
 
 
 def compare_session(ctx, sess, records, replies, T):
@@ -521,14 +638,16 @@ def sessions(ctx, drv, files, T, tmp, t_end):
             break
         pool = [f for f in cand if not f.variant.lzma] if rng.random() < 0.8 else cand
         sess = gen_session(rng, pool, len(T['names']))
-        records, problems = run_session(sess, fmap, T, tmp)
+        records, problems, labels = run_session(sess, fmap, T, tmp)
+        if len(set(sess['slots'])) < len(sess['slots']):
+            ctx.count('session:two-objects-on-one-file')
         ctx.case({'session': sess}, nontrivial=True, sample_every=17)
         ctx.count('session:%d-objects' % len(sess['files']))
         for key, what in problems:
             ctx.witness('session:' + key.split(':')[0], f'[session over {sess["files"]}] {what}', {'session': sess, 'seed': ctx.seed})
         if drv is not None:
             for o in range(len(sess['files'])):
-                f = fmap[sess['files'][o]]
+                f = fmap[labels.get(o, sess['files'][o])]
                 reqs.append({'op': 'run', 'rd': f.rd, 'wd': f.wd, 'ops': session_model_ops(sess, o, T, f)})
             pend.append((sess, records))
     if drv is not None and reqs:
@@ -604,7 +723,12 @@ def _run_all(ctx, drv, T):
                 if time.time() > t_end and kind in ('pair', 'random'):
                     ctx.count('skipped:time-budget')
                     continue
-                steps, problems, orig = impl_case(f, seq, T, tmp)
+                forms = gen_forms(rng)
+                steps, problems, orig = impl_case(f, seq, T, tmp, forms=forms)
+                if forms != CANONICAL_FORMS:
+                    ctx.count('forms:non-canonical')
+                    ctx.count('form:open=' + forms['open']); ctx.count('form:save=' + forms['save'])
+                    ctx.count('form:read=' + forms['read'] + ('+selfassign' if forms['selfassign'] else ''))
                 case = {'file': f.label, 'seq': [T['names'][v] for v in seq]}
                 ctx.case(case, nontrivial=bool(seq), sample_every=97)
                 ctx.count(f'seq:{kind}')
@@ -613,7 +737,8 @@ def _run_all(ctx, drv, T):
                     ctx.count('seq:with-caught-parse-error')
                 for key, what in problems:
                     ctx.witness(key, f'[{f.label}; read {case["seq"]}] {what}',
-                                {'file': f.label, 'variant': f.variant.describe() if f.variant else None, 'seq': case['seq'], 'seed': ctx.seed})
+                                {'file': f.label, 'variant': f.variant.describe() if f.variant else None, 'seq': case['seq'], 'seed': ctx.seed,
+                                 'forms': forms})
                 if drv is not None and orig is not None:
                     reqs.append({'op': 'run', 'rd': f.rd, 'wd': f.wd, 'ops': model_ops(f, seq, T)})
                     pend.append((f, seq, steps, orig))
@@ -674,12 +799,12 @@ def search(ctx):
                 kind = w['key'].split(':', 1)[1]
 
                 def sfails(ops):
-                    _, probs = run_session({'files': sess['files'], 'ops': list(ops)}, fmap, T, tmp, tag='s')
+                    _, probs, _ = run_session({'files': sess['files'], 'slots': sess.get('slots'), 'ops': list(ops)}, fmap, T, tmp, tag='s')
                     return any(k.split(':')[0] == kind for k, _ in probs)
                 if sfails(sess['ops']):
                     small = common.ddmin(sess['ops'], sfails, budget=80)
-                    w['input']['shrunk_session'] = {'files': sess['files'], 'ops': small}
-                    w['what'] += ' (shrunk to ' + '; '.join(f"{sess['files'][o]}.{k}" + ('' if a is None else f"({T['names'][a]})") for o, k, a in small) + ')'
+                    w['input']['shrunk_session'] = {'files': sess['files'], 'slots': sess.get('slots'), 'ops': small}
+                    w['what'] += ' (shrunk to ' + '; '.join(f"{sess['files'][o]}#{o}.{k}" + (f"({T['names'][a]})" if k == 'read' else '' if a is None else f'({a})') for o, k, a in small) + ')'
                 continue
             if w['key'] in seen or not w['input'].get('seq'):
                 continue
@@ -694,7 +819,7 @@ def search(ctx):
             seq = [T['idx'][n] for n in w['input']['seq']]
 
             def fails(s):
-                _, probs, _ = impl_case(f, list(s), T, tmp, tag='s')
+                _, probs, _ = impl_case(f, list(s), T, tmp, tag='s', forms=w['input'].get('forms'))
                 return any(k == w['key'] for k, _ in probs)
             if len(seq) > 1 and fails(seq):
                 small = common.ddmin(seq, fails, budget=60)
@@ -740,10 +865,10 @@ def replay(ctx, payload):
             T = static_tables_fallback()
             sess = inp.get('shrunk_session') or inp['session']
             fmap = _session_fmap(sess, inp.get('seed', ctx.seed), tmp, ctx, T)
-            _, problems = run_session(sess, fmap, T, tmp, tag='r')
+            _, problems, _ = run_session(sess, fmap, T, tmp, tag='r')
             print('session over', sess['files'])
             for op in sess['ops']:
-                print('   ', op[0], op[1], '' if op[2] is None else T['names'][op[2]])
+                print('   ', op[0], op[1], T['names'][op[2]] if op[1] == 'read' else ('' if op[2] is None else op[2]))
             for k, what in problems:
                 print('  FAIL', k, '-', what)
             return not problems
@@ -760,7 +885,8 @@ def replay(ctx, payload):
         with U.quiet():
             prepare(ctx, f, T, tmp)
         seq = [T['idx'][n] for n in (inp.get('shrunk_seq') or inp['seq'])]
-        steps, problems, _ = impl_case(f, seq, T, tmp, tag='r')
+        steps, problems, _ = impl_case(f, seq, T, tmp, tag='r', forms=inp.get('forms'))
+        print('forms', inp.get('forms') or CANONICAL_FORMS)
         print('file', f.label, 'reads', [T['names'][v] for v in seq])
         for k, what in problems:
             print('  FAIL', k, '-', what)
